@@ -912,6 +912,145 @@ func processFile(dir, fname string) codec {
 	return c
 }
 
+// ---------------------------------------------------------------------------------------------
+// wire protocol tables (C22): message ids, Serializer methods of the message types, framing constants
+// ---------------------------------------------------------------------------------------------
+
+func findFunc(dir, recv, name string) *ast.FuncDecl {
+	ents, _ := os.ReadDir(filepath.Join(repo, dir))
+	for _, e := range ents {
+		n := e.Name()
+		if e.IsDir() || !strings.HasSuffix(n, ".go") || strings.HasSuffix(n, "_test.go") || strings.HasSuffix(n, "_verif.go") {
+			continue
+		}
+		f, err := parser.ParseFile(fset, filepath.Join(repo, dir, n), nil, 0)
+		if err != nil {
+			fail("parse %s/%s: %v", dir, n, err)
+		}
+		for _, d := range f.Decls {
+			fd, ok := d.(*ast.FuncDecl)
+			if !ok || fd.Name.Name != name {
+				continue
+			}
+			if recv == "" && fd.Recv == nil {
+				return fd
+			}
+			if recv != "" && fd.Recv != nil && len(fd.Recv.List) == 1 && norm(show(fd.Recv.List[0].Type)) == "*"+recv {
+				return fd
+			}
+		}
+	}
+	return nil
+}
+
+func oneReturn(fd *ast.FuncDecl, what string) string {
+	if fd == nil || fd.Body == nil || len(fd.Body.List) != 1 {
+		fail("%s: expected a single return statement", what)
+	}
+	return norm(show(fd.Body.List[0]))
+}
+
+// messageTable returns Lean text for the table `messages` and the framing constants.
+func messageTable(cs []codec) string {
+	fd := findFunc("src/daemon", "", "getMessageConfigs")
+	if fd == nil || len(fd.Body.List) != 1 {
+		fail("daemon.getMessageConfigs: unrecognised shape")
+	}
+	ret, ok := fd.Body.List[0].(*ast.ReturnStmt)
+	if !ok || len(ret.Results) != 1 {
+		fail("daemon.getMessageConfigs: expected `return []MessageConfig{…}`")
+	}
+	lit, ok := ret.Results[0].(*ast.CompositeLit)
+	if !ok || norm(show(lit.Type)) != "[]MessageConfig" {
+		fail("daemon.getMessageConfigs: expected a []MessageConfig literal")
+	}
+	generated := map[string]string{}
+	for _, c := range cs {
+		generated[c.id] = c.id
+	}
+	pk := loadPkg("src/daemon")
+	var b strings.Builder
+	b.WriteString("/-! ### wire protocol (C22): message id table of daemon.getMessageConfigs and framing constants -/\n")
+	b.WriteString("/-- (4-byte id, Go type, schema the type's Decode method implements) -/\n")
+	b.WriteString("def messages : List (Bytes × String × Ty) := [\n")
+	for i, el := range lit.Elts {
+		m := regexp.MustCompile(`^NewMessageConfig\("([^"]*)", ([A-Za-z0-9_]+)\{\}\)$`).FindStringSubmatch(norm(show(el)))
+		if m == nil {
+			fail("daemon.getMessageConfigs: unrecognised entry %s", norm(show(el)))
+		}
+		prefix, T := m[1], m[2]
+		if len(prefix) == 0 || len(prefix) > 4 {
+			fail("message prefix %q: gnet.MessagePrefixFromString panics", prefix)
+		}
+		id := make([]string, 4)
+		for k := 0; k < 4; k++ {
+			if k < len(prefix) {
+				id[k] = strconv.Itoa(int(prefix[k]))
+			} else {
+				id[k] = "0"
+			}
+		}
+		ty := schemaOf(&ast.Ident{Name: T}, pk, nil, nil)
+		// the Serializer methods must delegate to the generated codec, or be the trivial ones of an empty message
+		var recvName string
+		dec := findFunc("src/daemon", T, "Decode")
+		if dec == nil || len(dec.Recv.List[0].Names) != 1 {
+			fail("%s.Decode not found", T)
+		}
+		recvName = dec.Recv.List[0].Names[0].Name
+		decS := oneReturn(dec, T+".Decode")
+		leanT := ""
+		if _, ok := generated["daemon_"+T]; ok && decS == "return decode"+T+"(buf, "+recvName+")" {
+			for name, mth := range map[string]string{"Encode": "return encode" + T + "ToBuffer(buf, %s)", "EncodeSize": "return encodeSize" + T + "(%s)"} {
+				f2 := findFunc("src/daemon", T, name)
+				if f2 == nil || len(f2.Recv.List[0].Names) != 1 {
+					fail("%s.%s not found", T, name)
+				}
+				if got := oneReturn(f2, T+"."+name); got != fmt.Sprintf(mth, f2.Recv.List[0].Names[0].Name) {
+					fail("%s.%s: unrecognised shape %q", T, name, got)
+				}
+			}
+			leanT = "ty_daemon_" + T
+		} else if decS == "return 0, nil" {
+			if len(ty.Fields) != 0 {
+				fail("%s.Decode ignores the buffer but the struct has encoded fields", T)
+			}
+			if oneReturn(findFunc("src/daemon", T, "Encode"), T+".Encode") != "return nil" ||
+				oneReturn(findFunc("src/daemon", T, "EncodeSize"), T+".EncodeSize") != "return 0" {
+				fail("%s: Encode/EncodeSize of an empty message must be `return nil` / `return 0`", T)
+			}
+			leanT = "Ty.unit"
+		} else {
+			fail("%s.Decode: unrecognised shape %q", T, decS)
+		}
+		sep := ","
+		if i == len(lit.Elts)-1 {
+			sep = ""
+		}
+		fmt.Fprintf(&b, "  ([%s], %q, %s)%s\n", strings.Join(id, ", "), T, leanT, sep)
+	}
+	b.WriteString("]\n")
+	// constants
+	gn := loadPkg("src/daemon/gnet")
+	for _, c := range []string{"messagePrefixLength", "messageLengthPrefixSize"} {
+		e, ok := gn.consts[c]
+		if !ok {
+			fail("gnet constant %s not found", c)
+		}
+		fmt.Fprintf(&b, "def %s : Nat := %d\n", c, constInt(e, gn, nil))
+	}
+	src, err := os.ReadFile(filepath.Join(repo, "src/daemon/gnet/pool.go"))
+	if err != nil {
+		fail("%v", err)
+	}
+	mq := regexp.MustCompile(`msgC := make\(chan \[\]byte, (\d+)\)`).FindAllSubmatch(src, -1)
+	if len(mq) != 1 {
+		fail("gnet/pool.go: expected exactly one `msgC := make(chan []byte, N)`")
+	}
+	fmt.Fprintf(&b, "def msgChanCap : Nat := %s\n\n", mq[0][1])
+	return b.String()
+}
+
 func writeIfChanged(dst, content string) bool {
 	if old, err := os.ReadFile(dst); err == nil && string(old) == content {
 		return false
@@ -968,7 +1107,8 @@ func main() {
 		fmt.Fprintf(&b, "def ty_%s : Ty :=\n  %s\n", id, leanTy(t))
 		fmt.Fprintf(&th, "theorem ty_%s_eq : ty_%s = Schemas.%s := by decide\n", id, id, e[1])
 	}
-	b.WriteString("\n/-- all generated codecs: (name, schema, program) -/\ndef all : List (String × Ty × GenCodec) := [\n")
+	b.WriteString("\n" + messageTable(cs))
+	b.WriteString("/-- all generated codecs: (name, schema, program) -/\ndef all : List (String × Ty × GenCodec) := [\n")
 	for i, c := range cs {
 		sep := ","
 		if i == len(cs)-1 {
